@@ -187,6 +187,139 @@ fn families() -> Vec<(&'static str, Direction, CaseFn)> {
     ]
 }
 
+// ---- the protocol-parameterised readers under chosen schedules (driven from C06) ----
+
+macro_rules! proto_sched_fn {
+    ($fname:ident, $Marker:ident, $expect_protocol:ident, $texpect_protocol:ident, $aexpect_protocol:ident) => {
+        /// blocking `expect_*_message_protocol` on the whole input against the tokio and async-std ones under every schedule
+        fn $fname<M>(v: u8, input: &[u8], scheds: &[Schedule]) -> Result<u64, (String, String, Schedule)>
+        where
+            M: CollectiveMessage + wow_login_messages::$Marker + std::fmt::Debug + PartialEq + Clone,
+        {
+            use wow_login_messages::helper::*;
+            let p = pv(v);
+            let mut cur = Cursor::new(input);
+            let s = catch(|| $expect_protocol::<M, _>(&mut cur, p));
+            if s.is_err() {
+                // totality is C03's subject
+                return Ok(0);
+            }
+            let s_pos = cur.position() as usize;
+            let ks = kind_of(&s);
+            let mut n = 0u64;
+            for sched in scheds {
+                macro_rules! one {
+                    ($flavor:literal, $f:ident) => {{
+                        let mut tr = Scripted::new(input, sched);
+                        let r = catch(|| drive($f::<M, _>(&mut tr, p), MAX_POLLS));
+                        let pos = tr.pos;
+                        n += 1;
+                        match r {
+                            Err((m, l)) => return Err((format!("{}-protocol-panic:{}", $flavor, rel_location(&l)), m, sched.clone())),
+                            Ok(Driven::Stalled) => return Err((format!("{}-protocol-stalled", $flavor), "returned Pending without arranging a wake-up".into(), sched.clone())),
+                            Ok(Driven::TooManyPolls) => {}
+                            Ok(Driven::Done(a)) => {
+                                let a = Ok(a);
+                                let ka = kind_of(&a);
+                                if ka != ks {
+                                    return Err((format!("{}-protocol-outcome", $flavor), format!("version {}: blocking {} but {} {}", v, ks, $flavor, ka), sched.clone()));
+                                }
+                                if let (Ok(Ok(x)), Ok(Ok(y))) = (&s, &a) {
+                                    if x != y {
+                                        return Err((format!("{}-protocol-value", $flavor), format!("version {}: blocking gives {:?}, {} gives {:?}", v, x, $flavor, y), sched.clone()));
+                                    }
+                                    if pos != s_pos {
+                                        return Err((format!("{}-protocol-consumed", $flavor), format!("version {}: blocking consumed {} bytes, {} consumed {}", v, s_pos, $flavor, pos), sched.clone()));
+                                    }
+                                }
+                            }
+                        }
+                    }};
+                }
+                one!("tokio", $texpect_protocol);
+                one!("astd", $aexpect_protocol);
+            }
+            Ok(n)
+        }
+    };
+}
+
+proto_sched_fn!(client_sched, ClientMessage, expect_client_message_protocol, tokio_expect_client_message_protocol, astd_expect_client_message_protocol);
+proto_sched_fn!(server_sched, ServerMessage, expect_server_message_protocol, tokio_expect_server_message_protocol, astd_expect_server_message_protocol);
+
+type SchedFn = fn(u8, &[u8], &[Schedule]) -> Result<u64, (String, String, Schedule)>;
+
+fn sched_families() -> Vec<(&'static str, Direction, SchedFn)> {
+    use wow_login_messages::all as a;
+    use wow_login_messages::version_8 as v8;
+    vec![
+        ("CMD_AUTH_LOGON_CHALLENGE_Client", Direction::Client, client_sched::<a::CMD_AUTH_LOGON_CHALLENGE_Client> as SchedFn),
+        ("CMD_AUTH_RECONNECT_CHALLENGE_Client", Direction::Client, client_sched::<a::CMD_AUTH_RECONNECT_CHALLENGE_Client> as SchedFn),
+        ("CMD_AUTH_LOGON_PROOF_Client", Direction::Client, client_sched::<v8::CMD_AUTH_LOGON_PROOF_Client> as SchedFn),
+        ("CMD_AUTH_RECONNECT_PROOF_Client", Direction::Client, client_sched::<v8::CMD_AUTH_RECONNECT_PROOF_Client> as SchedFn),
+        ("CMD_REALM_LIST_Client", Direction::Client, client_sched::<v8::CMD_REALM_LIST_Client> as SchedFn),
+        ("CMD_XFER_ACCEPT", Direction::Client, client_sched::<v8::CMD_XFER_ACCEPT> as SchedFn),
+        ("CMD_XFER_CANCEL", Direction::Client, client_sched::<v8::CMD_XFER_CANCEL> as SchedFn),
+        ("CMD_XFER_RESUME", Direction::Client, client_sched::<v8::CMD_XFER_RESUME> as SchedFn),
+        ("CMD_AUTH_LOGON_CHALLENGE_Server", Direction::Server, server_sched::<v8::CMD_AUTH_LOGON_CHALLENGE_Server> as SchedFn),
+        ("CMD_AUTH_LOGON_PROOF_Server", Direction::Server, server_sched::<v8::CMD_AUTH_LOGON_PROOF_Server> as SchedFn),
+        ("CMD_AUTH_RECONNECT_CHALLENGE_Server", Direction::Server, server_sched::<v8::CMD_AUTH_RECONNECT_CHALLENGE_Server> as SchedFn),
+        ("CMD_AUTH_RECONNECT_PROOF_Server", Direction::Server, server_sched::<v8::CMD_AUTH_RECONNECT_PROOF_Server> as SchedFn),
+        ("CMD_REALM_LIST_Server", Direction::Server, server_sched::<v8::CMD_REALM_LIST_Server> as SchedFn),
+        ("CMD_XFER_DATA", Direction::Server, server_sched::<v8::CMD_XFER_DATA> as SchedFn),
+        ("CMD_XFER_INITIATE", Direction::Server, server_sched::<v8::CMD_XFER_INITIATE> as SchedFn),
+    ]
+}
+
+/// C06's share of the protocol-parameterised entry points: every family x protocol version, canonical encodings and
+/// their truncations, blocking reader against the tokio / async-std readers under the caller's schedules
+pub fn protocol_readers_under_schedules(corpus: &Corpus, c: &mut Check, tier: Tier, scheds_for: &dyn Fn(&[u8]) -> Vec<Schedule>) {
+    for (name, dir, f) in sched_families() {
+        for v in LOGIN_VERSIONS {
+            let Some(e) = corpus.entries.iter().find(|e| e.ns == Ns::Login(v) && e.name == name && e.dir == dir) else { continue };
+            let encf = |t: &[u8], fo: &BTreeMap<String, u32>| corpus.encode(e, t, fo);
+            let mut ds = DirectedStats::default();
+            let cases = directed(&encf, &[], tier.pick(60, 600), &mut ds).unwrap_or_default();
+            let mut seen: BTreeSet<Vec<u8>> = BTreeSet::new();
+            for case in &cases {
+                let full = &case.enc.frame;
+                let mut inputs: Vec<Vec<u8>> = vec![full.clone()];
+                if full.len() > 1 {
+                    inputs.push(full[..full.len() - 1].to_vec());
+                    inputs.push(full[..full.len() / 2].to_vec());
+                }
+                for input in inputs {
+                    if input.len() > 4096 || !seen.insert(input.clone()) {
+                        continue;
+                    }
+                    let scheds = scheds_for(&input);
+                    c.count("protocol_reader_inputs");
+                    match f(v, &input, &scheds) {
+                        Ok(n) => {
+                            c.evals(n);
+                            if n > 0 && scheds.iter().any(|s| s.chunks() >= 2 || s.pendings() >= 1) {
+                                c.nontrivial(vcommon::fnv(format!("proto|{}|{}|{}|{}", name, v, case.enc.shape(), input.len() == full.len()).as_bytes()));
+                            }
+                        }
+                        Err((k, d, sched)) => {
+                            c.fail(&format!("c06:protocol:{}:v{}:{}", name, v, k), &d, json!({"kind": "protocol", "family": name, "version": v, "input": vcommon::hex(&input), "schedule": sched.steps.iter().map(|(p, l)| json!([p, l])).collect::<Vec<_>>()}));
+                        }
+                    }
+                }
+            }
+        }
+    }
+}
+
+/// replay of one (family, version, input, schedule) of the section above; Err = the violation text
+pub fn protocol_replay(name: &str, v: u8, input: &[u8], sched: Schedule) -> Option<Result<(), String>> {
+    let f = sched_families().into_iter().find(|f| f.0 == name)?.2;
+    Some(match f(v, input, &[sched]) {
+        Ok(_) => Ok(()),
+        Err((k, d, _)) => Err(format!("{} {}", k, d)),
+    })
+}
+
 pub fn run(tier: Tier, replay: Option<String>) -> i32 {
     let mut c = Check::new("C14", tier);
     let corpus = match Corpus::load() {
